@@ -326,6 +326,9 @@ func runC01(r *mc.Run) {
 	}
 	nl := len(lv)
 	st := r.Explore("forgeries", bound, func(c *mc.Ctx) { c01Forgery(r, c, bases[0], lv, nl) })
+	world.SetLogLevel(2) // single forgeries again with the library's logger at verbosity 2
+	r.Explore("forgeries/log-level=2", 1, func(c *mc.Ctx) { c01Forgery(r, c, bases[0], lv, nl) })
+	world.SetLogLevel(0)
 	r.Set("forgery_bound_completed", st.Bound)
 
 	// (c) message-level single-bit mutants handed to verify.TdxQuote.
@@ -355,7 +358,7 @@ func c01Forgery(r *mc.Run, c *mc.Ctx, base *c01base, lv []int, nl int) {
 	qeSigForm := c.Choose("qesigform", 5)
 	resize := c.Choose("resize", 3)
 	li := c.Free("level", nl)
-	id := "forge/" + c.ID()
+	id := "forge/" + c.ID() + world.LogTag()
 	if !r.Want(id) {
 		return
 	}
